@@ -35,3 +35,6 @@ print("func opText(k TokenKind) string {\n\tswitch k {")
 for lx,k in LEX.items():
     print(f"\tcase {k}:\n\t\treturn \"{lx}\"")
 print("\t}\n\treturn \"\"\n}")
+print()
+print("// VOpText: the text of an operator or punctuation token (for the printers' contracts, C19).")
+print("func VOpText(k TokenKind) string { return opText(k) }")
